@@ -23,4 +23,31 @@ def run_c10(ctx):
             H.report_diffs("backup-run")
         if ctx.violations:
             break
+    # a source file that fails to be read in the middle of its SECOND pass (the tar header and part of the data are already in the stream):
+    # whatever gets a final name must still be a well-formed archive with lines and entries in step
+    if not ctx.has_failing_input():
+        with slevel.Sandbox("c10") as sb:
+            H = runs.History(ctx, sb, rng, "C10", 3, 6, identity_changes=True)
+            H.advance = lambda: None
+            H.w.populate(nfiles=5)
+            top = os.path.join(H.w.src, H.w.items[0])
+            big = os.path.join(top, "big.bin")
+            H.w.write_file(big, rng.randbytes(200000))
+            H.w.write_file(os.path.join(top, "zz-after-big"), b"after " * 100)
+            tf = sb.path("reads.txt")
+            H.now += 3600
+            # the number of read() calls on the file in an undisturbed run
+            H.run(nedits=0, backup_kwargs={"prefix": ["strace", "-f", "-o", tf, "-e", "trace=read", "-P", os.path.realpath(big)]})
+            nreads = sum(1 for l in open(tf, errors="replace") if "read(" in l) if os.path.exists(tf) else 0
+            ctx.count("faulted-source-read.reads_per_run", nreads)
+            for k in sorted(set([1, nreads // 2 + 1, nreads // 2 + 2, max(1, nreads - 2), nreads // 4 + 1])):
+                if ctx.violations or nreads == 0:
+                    break
+                # a fresh content so that both passes happen again
+                H.w.write_file(big, rng.randbytes(200000))
+                H.now += 61
+                H.run(nedits=0, backup_kwargs={"prefix": ["strace", "-f", "-o", tf, "-e", "trace=read", "-P", os.path.realpath(big),
+                                                          "-e", "inject=read:error=EIO:when=%d" % k]})
+                ctx.count("faulted-source-read.runs")
+            H.report_diffs("backup-run")
     ctx.count("storage.histories", nhist)
